@@ -5,6 +5,7 @@ From Coq Require Import NArith List Bool.
 Import ListNotations.
 From CXV Require Import Gen.TokTy Parse.Balanced Parse.BalancedThms Parse.Declarator Parse.DeclSpec Parse.DeclThms Parse.DeclPins.
 From CXV Require Gen.PinsC01.
+From CXV Require Import Parse.PQName Parse.Using Parse.EnumDecl.
 From CXV Require Import Parse.EnumList Parse.Specs Parse.VarStmt Parse.FnTail Parse.Init Parse.Members Parse.Template.
 From CXV Require Import Parse.Fold Parse.FoldThms Parse.FoldPlace.
 Open Scope N_scope.
@@ -143,7 +144,45 @@ Proof. exact items_land_where_written_lemma. Qed.
 Theorem declarator_code_is_the_modelled_one : decl_sets_ok = true.
 Proof. exact decl_sets_ok_true. Qed.
 
-(* the functions the hand-written models above mirror (_parse_type, ParsedTypeModifiers.validate, _parse_enumerator_list, _parse_fn_end, _parse_template_decl and _parse_template_type_parameter) are, token for
+(* using statements (after the keyword): `using namespace [::] a::b;` reports
+   exactly the names written, in order, and the leading '::'; `using [typename]
+   [::] a::b::c;` reports the qualified name as written (the typename keyword
+   is not part of it); `using A = type-id;` reports the alias name and exactly
+   the type written, for every legal type tree that is not a plain function
+   type -- each followed by its ';', the rest untouched. *)
+Theorem using_directive_decodes_partial : forall root n q fuel rest,
+  using_stmt false false fuel (udir_toks root n q ++ ktok SEMI :: rest) = DOk (UDir root (n :: q), rest).
+Proof. exact using_directive_roundtrip. Qed.
+
+Theorem using_declaration_decodes_partial : forall (tn root : bool) n q in_class fuel rest,
+  (q = [] -> root = true \/ tn = true) ->
+  using_stmt in_class false fuel (pn2_toks (PNames tn [] root n q) ++ ktok SEMI :: rest)
+  = DOk (UDecl (pn2_out (PNames false [] root n q)), rest).
+Proof. exact using_declaration_roundtrip. Qed.
+
+Theorem using_alias_decodes_partial : forall a t in_class has_template rest,
+  DeclSpec.wf t -> kind_of t <> KFn ->
+  ev (fun f => using_stmt in_class has_template f (mkTk T_NAME a :: ktok EQ :: decl_toks t None ++ ktok SEMI :: rest))
+     (DOk (UAlias a t, rest)).
+Proof. exact using_alias_roundtrip. Qed.
+
+(* enum declarations behind the name: `enum E : base;` reports exactly the base
+   written (a qualified name or a fundamental group in the order written);
+   `enum E [: base] { ... };` reports the base (or none) and every enumerator
+   once, in order, with its own value. *)
+Theorem enum_forward_decodes_partial : forall p rest,
+  base_ok p (ktok SEMI :: rest) ->
+  enum_decl false (ktok COLON :: pn2_toks p ++ ktok SEMI :: rest) = DOk (EFwd (pn2_out p), rest).
+Proof. exact enum_forward_roundtrip. Qed.
+
+Theorem enum_definition_decodes_partial : forall p items tc rest,
+  (match p with Some p => base_ok p (ktok LBRACE :: enum_body_toks items tc ++ ktok SEMI :: rest) | None => True end) ->
+  Forall wenum_ok items -> (items = [] -> tc = false) ->
+  enum_decl false (base_toks p ++ ktok LBRACE :: enum_body_toks items tc ++ ktok SEMI :: rest)
+  = DOk (EDef (option_map pn2_out p) (map strip_e items), rest).
+Proof. exact enum_definition_roundtrip. Qed.
+
+(* the functions the hand-written models above mirror (_parse_type, ParsedTypeModifiers.validate, _parse_enumerator_list, _consume_attribute_specifier_seq, _parse_enum_decl, _parse_fn_end, _parse_template_decl, _parse_template_type_parameter, _parse_using, _parse_using_directive, _parse_using_declaration and _parse_using_typealias) are, token for
    token of their syntax trees, the ones the models were written against: the
    translator recomputes the digests from the live code and produces Gen/PinsC01.v
    only when they match *)
@@ -191,4 +230,9 @@ Example c01_stmt_run :
   = DOk (mkMods true false true false false true false false false,
          [(1, TPtr (TBase 5 true false) true false); (2, TArr (TBase 5 true false) [mkTk 3 9])], []).
 Proof. vm_compute. reflexivity. Qed.
+Print Assumptions using_directive_decodes_partial.
+Print Assumptions using_declaration_decodes_partial.
+Print Assumptions using_alias_decodes_partial.
+Print Assumptions enum_forward_decodes_partial.
+Print Assumptions enum_definition_decodes_partial.
 Print Assumptions modelled_functions_are_the_pinned_ones.
